@@ -67,6 +67,16 @@ THEOREMS = [
     "BeyondVerif.C01.routes_mirror",
     "BeyondVerif.C01.setForm_back",
     "BeyondVerif.C01.setFrame_cartesian_view",
+    "BeyondVerif.C01.form_names_as_documented",
+    "BeyondVerif.C01.form_names_only_documented",
+    "BeyondVerif.C01.form_names_cover_graph",
+    "BeyondVerif.C01.short_names_are_suffixes",
+    "BeyondVerif.C01.canonForm_documented",
+    "BeyondVerif.C01.setForm_by_any_documented_name",
+    "BeyondVerif.C01.setForm_undocumented_name",
+    "BeyondVerif.C01.param_names_as_documented",
+    "BeyondVerif.C01.paramNames_documented",
+    "BeyondVerif.C01.element_aliases_as_documented",
     "BeyondVerif.C01W.m2e_start_clamped",
     "BeyondVerif.C01W.mean_circular_keeps_hyperbolic_M",
 ]
@@ -84,7 +94,9 @@ LEVEL_TEXT = ("Lean theorems over R about the 17 edge functions, the M2E reducti
               "(six numbers, form, frame, mu) only (no hidden state), a read returns what a fresh object returns and never disturbs, the frame setter writes the "
               "elements of the transformed cartesian state for the mu of the NEW centre and the object then stands for exactly that state, form there-and-back "
               "returns the numbers; `decide`d facts about the regenerated tables (helper never reused, frame committed before the form is restored, convert "
-              "before commit, copy: frame then form). Differential correspondence of every edge, M2E, Infos, StateVector.copy along the routed walk, and of "
+              "before commit, copy: frame then form); the NAMES: the table get_form looks names up in (forms._cache, regenerated) is the documented one — every form under its full "
+              "name, the four keplerian variants also under the name without `keplerian_`, nothing else —, so for EVERY string `sv.form = name` is the change to the form "
+              "documented under that name (any case) or an UnknownFormError that changes nothing; element names and aliases are the documented ones. Differential correspondence of every edge, M2E, Infos, StateVector.copy along the routed walk, and of "
               "random operation histories on real StateVector / Orbit objects (4 central bodies, 16 frames) against the compiled Lean model.")
 LEVEL_NOTE = ("proof (partial): not proved are (1) that every cartesian state with h != 0, sin i != 0, e != 0 is the view of some elements (so "
               "cartesian->keplerian->cartesian is proved on the image of keplerian->cartesian only), (2) termination of the Kepler loop (fuel; covered by "
@@ -98,7 +110,9 @@ TRUSTED = [
     "harness/props/C01.py m2e_pieces: checks that the M2E loop and the mean->eccentric edge still have exactly the modelled shape (AST equality), else the run is reported broken",
     "harness/props/C01.py regen_forms_graph: rewrites the forms part of Generated/Graphs.lean from the links recorded by harness/extract_graphs.py (as C20 does), reports a graph that is not a tree",
     "harness/props/C01.py sv_tables: reads the order of the effects of the form setter, the frame setter and copy, and the two keys of the infos property, from the AST into Generated/SVTables.lean; "
-    "checks by AST equality that Infos.__init__/kep/sphe/mu/r, Form.__call__ and Frame.transform have the modelled shape, else the run is reported broken",
+    "checks by AST equality that Infos.__init__/kep/sphe/mu/r, Form.__call__, get_form and Frame.transform have the modelled shape, else the run is reported broken",
+    "harness/props/C01.py DOC_FORM_NAMES / DOC_PARAMS / DOC_ALT and C01.documentedFormNames / documentedParamNames / documentedAlt (Props/C01Machine.lean): the documented names of the forms and "
+    "of their elements, written by hand from doc/source/api/orbits.rst and the docstrings of the Form constants (the specification the regenerated tables are proved equal to and the oracle resolves names by)",
     "lean/templates/Forms.tpl: hand-written fuel loop, 6-list plumbing, name dispatch (tied by the correspondence run)",
     "lean/templates/SVMachine.tpl: hand-written interpreter of the setter steps, name/alias resolution over the regenerated tables, routing by C20's Node.path on the regenerated forms graph (tied by the history correspondence)",
     "the affine map of a frame change (rotation 6x6, offset of the centres) is an INPUT of the machine, computed from the orientation / centre objects (their correctness belongs to C02/C03)",
@@ -130,12 +144,14 @@ OPEN = [
 ]
 RULE = ("correspondence: 2500 (quick) / 40000 (thorough) orbits, alternating ellipse/hyperbola, e in [1e-4,0.99] u [1.001,20], i in [0.01,pi-0.01], "
         "any node/perigee, anomalies incl. M<0, M>2pi, |H|<=8, three bodies; every one of the 18 edge methods on each orbit, StateVector.copy along the "
-        "routed walk for a random pair, Form.M2E on all start branches, 13 Infos values; rtol 1e-9, angles mod 2pi; 150 (quick) / 3000 (thorough) random + 15 pinned "
+        "routed walk for a random pair, Form.M2E on all start branches, 13 Infos values; rtol 1e-9, angles mod 2pi; 150 (quick) / 3000 (thorough) random + 20 pinned "
         "operation histories of 3-12 operations on real StateVector / Orbit objects (made directly, by copy, pickle, as_orbit, numpy arithmetic; some after a read of "
         "the original) over 16 frames about Earth, Moon, Sun, Mars (constant-offset centres and the moving Moon / Sun of beyond.env.solarsystem), every state inside the "
         "quantifier, compared after every operation (six numbers, outcome, 14 infos values) with the Lean state machine; non-trivial = every case; "
-        "distinct = distinct request line. oracle: mean->cartesian vs an independent perifocal construction, 9 forms x 6 numbers vs textbook "
-        "definitions computed with numpy, 10x10 round trips (1e-6 r, 1e-6 v), Infos relations — on 40 (quick) / 400 (thorough) orbits of the quantifier plus 15 / 150 nearly circular ones (1e-7 <= e < 1e-4, same tolerances, angle tolerances scaled by 1/e) —, Kepler residual of Form.M2E; every library conversion under a 1 s watchdog, non-return and non-finite results inside the domain are failures; 70 (quick) / 500 (thorough) random + 15 pinned "
+        "distinct = distinct request line; forms are named by every documented spelling (full / short name, any case, Form constant) in the constructor, the setter and copy, plus spellings that are no name. "
+        "oracle: names are resolved by the DOCUMENTED tables, never by the library's own; get_form on 42 spellings of the 14 documented names and 14 non-names; per orbit each documented name through "
+        "copy(form=), sv.form= and the constructor (label, six numbers vs textbook elements of the form of that name, position/velocity, every element readable by its documented name and aliases); mean->cartesian vs an independent perifocal construction, 9 forms x 6 numbers vs textbook "
+        "definitions computed with numpy, 10x10 round trips (1e-6 r, 1e-6 v), Infos relations — on 40 (quick) / 400 (thorough) orbits of the quantifier plus 15 / 150 nearly circular ones (1e-7 <= e < 1e-4, same tolerances, angle tolerances scaled by 1/e) —, Kepler residual of Form.M2E; every library conversion under a 1 s watchdog, non-return and non-finite results inside the domain are failures; 70 (quick) / 500 (thorough) random + 20 pinned "
         "operation histories: after every operation the six numbers vs the textbook elements of the reference cartesian state for the mu of the CURRENT centre, "
         "position/velocity directly and through another form, every infos quantity vs its defining relation and vs a freshly constructed object, the untouched original of a copy")
 
@@ -145,6 +161,47 @@ SV_PY = os.path.join(core.REPO, "beyond", "orbits", "statevector.py")
 FORMS = ["cartesian", "spherical", "cylindrical", "keplerian", "keplerian_eccentric", "keplerian_mean",
          "keplerian_circular", "keplerian_mean_circular", "equinoctial", "tle"]
 TWO_PI = 2 * math.pi
+
+# ---------------------------------------------------------------- the documented names (specification, NOT read from the library)
+#
+# doc/source/api/orbits.rst ("Some forms have aliases": circular, mean, mean_circular, eccentric point to the keplerian
+# variant of that name) and the docstrings of the ten Form constants of forms.py (the six element names of each form, the
+# aliases of the Greek-letter elements).  The reference semantics of the histories, the generators and the by-name oracle
+# family resolve names through THESE tables; the Lean side proves that the table regenerated from the code
+# (`forms._cache`) is this one (C01.form_names_as_documented / form_names_only_documented / canonForm_documented).
+DOC_SHORT_NAMES = {"circular": "keplerian_circular", "mean": "keplerian_mean", "mean_circular": "keplerian_mean_circular",
+                   "eccentric": "keplerian_eccentric"}
+DOC_FORM_NAMES = dict({f: f for f in FORMS}, **DOC_SHORT_NAMES)
+FORM_CONST = {"cartesian": "CART", "spherical": "SPHE", "cylindrical": "CYL", "keplerian": "KEPL", "keplerian_eccentric": "KEPL_E",
+              "keplerian_mean": "KEPL_M", "keplerian_circular": "KEPL_C", "keplerian_mean_circular": "KEPL_MC", "equinoctial": "EQUI", "tle": "TLE"}
+DOC_PARAMS = {
+    "cartesian": ["x", "y", "z", "vx", "vy", "vz"],
+    "spherical": ["r", "θ", "φ", "r_dot", "θ_dot", "φ_dot"],
+    "cylindrical": ["r", "θ", "z", "r_dot", "θ_dot", "vz"],
+    "keplerian": ["a", "e", "i", "Ω", "ω", "ν"],
+    "keplerian_eccentric": ["a", "e", "i", "Ω", "ω", "E"],
+    "keplerian_mean": ["a", "e", "i", "Ω", "ω", "M"],
+    "keplerian_circular": ["a", "ex", "ey", "i", "Ω", "u"],
+    "keplerian_mean_circular": ["a", "ex", "ey", "i", "Ω", "α"],
+    "equinoctial": ["a", "ex", "ey", "ix", "iy", "l"],
+    "tle": ["i", "Ω", "e", "ω", "M", "n"],
+}
+DOC_ALT = {"theta": "θ", "phi": "φ", "raan": "Ω", "Omega": "Ω", "omega": "ω", "nu": "ν", "theta_dot": "θ_dot", "phi_dot": "φ_dot",
+           "aol": "u", "H": "E", "x_dot": "vx", "y_dot": "vy", "z_dot": "vz", "alpha": "α", "maol": "α"}
+DOC_ALL_PARAMS = {p for ps in DOC_PARAMS.values() for p in ps}
+# spellings that are NOT names of a form: must end as UnknownFormError, whatever table the library keeps
+UNDOCUMENTED_NAMES = ["kepler", "circ", "mean_circ", "keplerian_mean_circ", "mean-circular", "meancircular", "keplerian_", "_circular",
+                      "keplerian_tle", "true", "cart", "equinoctial_mean", "circular_mean", "keplerian_keplerian"]
+
+
+def doc_form(name):
+    """canonical name of the form documented under `name` (any case), or None"""
+    return DOC_FORM_NAMES.get(name.lower())
+
+
+def spellings(name):
+    return [name, name.upper(), name.capitalize()]
+
 
 # ---------------------------------------------------------------- generators (shared by K and S)
 
@@ -444,6 +501,8 @@ def infos_relations(inf, mu, rbody, truth, a, e, hyper):
             v = getattr(inf, nm)
         except ValueError:
             return "raises"
+        except Exception:
+            return "error"      # any other exception of the library is an outcome of this case, not of the harness
         return v.total_seconds() if hasattr(v, "total_seconds") else v
     rs, vn = float(np.linalg.norm(truth[:3])), float(np.linalg.norm(truth[3:]))
     h = float(np.linalg.norm(np.cross(truth[:3], truth[3:])))
@@ -456,14 +515,15 @@ def infos_relations(inf, mu, rbody, truth, a, e, hyper):
               ("vp", g("vp"), h / (a * (1 - e)), vn), ("n", g("n"), nmean, nmean),
               ("cos_fpa", cf, h / (rs * vn), 1.0), ("sin_fpa", sf, rv / (rs * vn), 1.0),
               ("fpa", g("fpa"), math.atan2(rv, h), 1.0),
-              ("cos2+sin2", "raises" if isinstance(cf, str) or isinstance(sf, str) else cf ** 2 + sf ** 2, 1.0, 1.0),
+              ("cos2+sin2", (cf if isinstance(cf, str) else sf) if isinstance(cf, str) or isinstance(sf, str) else cf ** 2 + sf ** 2, 1.0, 1.0),
               ("zp", g("zp"), a * (1 - e) - rbody, abs(a))]
     if hyper:
         checks += [("vinf", g("vinf"), math.sqrt(2 * energy), vn), ("dinf", g("dinf"), h / math.sqrt(2 * energy), abs(a) * e),
                    ("type", float(inf.type == "hyperbolic"), 1.0, 1.0)]
         for nm in ("period", "apocenter", "va"):
-            if g(nm) != "raises":
-                checks.append((nm, "no-raise", None, None))
+            v = g(nm)
+            if v != "raises":
+                checks.append((nm, "error" if v == "error" else "no-raise", None, None))
     else:
         per = TWO_PI * math.sqrt(a ** 3 / mu)
         checks += [("period", g("period"), per, per),
@@ -476,6 +536,111 @@ def infos_ok(nm, got, exp, sc):
     if isinstance(got, str):
         return False
     return math.isfinite(float(got)) and abs(float(got) - exp) <= 1e-6 * sc + (1e-6 if nm == "period" else 0.0)
+
+
+def by_name_checks(out, cart, fr, date, d, src_six, truth, hyper, a, e, i, rs, vs, inp, conic):
+    """every documented name of a form (DOC_FORM_NAMES, one of its spellings — chosen from the input, so that a replay makes the
+    same choice), on the three ways a caller hands a name to the library: `copy(form=name)`, `sv.form = name` and
+    `StateVector(six numbers, date, name, frame)`.  The label must be the form of that name, the six numbers the textbook
+    elements of THAT form, and the six elements of that form (`src_six`) given under that name must stand for the same position and velocity."""
+    import numpy as np
+    from beyond.orbits import StateVector
+    for idx, (name, canon) in enumerate(DOC_FORM_NAMES.items()):
+        if not defined_for(canon, hyper):
+            continue
+        sp = spellings(name)[(idx + int(abs(a))) % 3] if name != canon or idx % 2 else name
+        kind = "short" if name != canon else "full"
+        six_doc = [float(v) for v in src_six[canon]]      # the orbit written in that form by formulas local to this harness (source_coords)
+        for how in ("copy", "setter", "constructor"):
+            out.count(key=("name", sp, how, a, e), kind="by-name-" + how, name=kind, spelling="lower" if sp == name else "other-case")
+            ninp = dict(inp, name=sp, how=how, documented_form=canon, cartesian=[float(x) for x in truth])
+            fam = f"by-name-{name}-{how}-{conic}"
+            try:
+                with watchdog(2.0), np.errstate(all="ignore"):
+                    if how == "copy":
+                        sv = cart.copy(form=sp)
+                    elif how == "setter":
+                        sv = cart.copy()
+                        sv.form = sp
+                    else:
+                        sv = StateVector(six_doc, date, sp, fr)
+                    c = arr(sv.copy(form="cartesian"))
+            except Hang:
+                out.fail(fam + "-no-return", f"asking for the form by its documented name {sp!r} ({how}) does not return within 2 s", ninp)
+                note_hang()
+                continue
+            except Exception as ex:
+                out.fail(fam + "-raises", f"the documented form name {sp!r} ({how}) is refused: {type(ex).__name__}", ninp, observed=repr(ex)[:120], expected=canon)
+                continue
+            if sv.form.name != canon:
+                out.fail(fam + "-other-form", f"the form obtained under the documented name {sp!r} ({how}) is not {canon}", ninp, observed=sv.form.name, expected=canon)
+                continue
+            if how != "constructor" and canon != "cartesian":
+                bad = definition_mismatches(canon, arr(sv), d, hyper, a, e, i, rs, vs)
+                for j, kname, g, exp in bad[:1]:
+                    out.fail(fam + f"-definition-{kname}", f"{sp!r} ({how}): number {j} is not the textbook value of {kname}, the element the form of that name has there",
+                             ninp, observed=g, expected=float(exp))
+                if bad:
+                    continue
+            if not (np.all(np.isfinite(c)) and np.linalg.norm(c[:3] - truth[:3]) <= 1e-6 * rs and np.linalg.norm(c[3:] - truth[3:]) <= 1e-6 * vs):
+                out.fail(fam + "-position-velocity", f"{sp!r} ({how}): the object does not stand for the position and velocity the six textbook elements of {canon} describe",
+                         ninp, observed=[float(x) for x in c], expected=[float(x) for x in truth])
+                continue
+            # the elements are readable under the documented element names (and their aliases) of that form
+            six = arr(sv)
+            for j, pn in enumerate(DOC_PARAMS[canon]):
+                for nm in [pn] + [al for al, t in DOC_ALT.items() if t == pn]:
+                    try:
+                        g1, g2 = float(getattr(sv, nm)), float(sv[nm])
+                    except (AttributeError, KeyError) as ex:
+                        out.fail(fam + f"-element-{nm}-raises", f"{sp!r} ({how}): the element {nm!r} of {canon} cannot be read by name", ninp, observed=repr(ex)[:120])
+                        break
+                    if not (g1 == six[j] and g2 == six[j]):
+                        out.fail(fam + f"-element-{nm}", f"{sp!r} ({how}): reading the element {nm!r} by name does not give number {j}", ninp, observed=[g1, g2], expected=float(six[j]))
+                        break
+
+
+def name_table_checks(out, only=None):
+    """`get_form` on every spelling of every documented name (must be the Form constant of that name, with the documented element
+    names) and on spellings that are no documented name (must raise UnknownFormError)"""
+    from beyond.orbits import forms
+    from beyond.errors import UnknownFormError
+    for name, canon in DOC_FORM_NAMES.items():
+        for sp in spellings(name):
+            if only is not None and sp != only:
+                continue
+            out.count(key=("get_form", sp), kind="get_form", name="short" if name != canon else "full")
+            try:
+                got = forms.get_form(sp)
+            except Exception as ex:
+                out.fail(f"get-form-{name}-raises", f"get_form({sp!r}): the documented name is refused ({type(ex).__name__})", {"name": sp}, observed=repr(ex)[:120], expected=canon)
+                continue
+            if got is not getattr(forms, FORM_CONST[canon], None) or got.name != canon:
+                out.fail(f"get-form-{name}-other-form", f"get_form({sp!r}) is not the form of that name", {"name": sp}, observed=getattr(got, "name", repr(got)), expected=canon)
+            elif list(got.param_names) != DOC_PARAMS[canon]:
+                out.fail(f"get-form-{name}-element-names", f"get_form({sp!r}).param_names are not the documented element names", {"name": sp},
+                         observed=list(got.param_names), expected=DOC_PARAMS[canon])
+    for sp in UNDOCUMENTED_NAMES:
+        if only is not None and sp != only:
+            continue
+        out.count(key=("get_form", sp), kind="get_form", name="undocumented")
+        try:
+            got = forms.get_form(sp)
+        except UnknownFormError:
+            continue
+        except Exception as ex:
+            out.fail("get-form-undocumented-other-error", f"get_form({sp!r}) (no documented name) raises {type(ex).__name__} instead of UnknownFormError", {"name": sp}, observed=repr(ex)[:120])
+            continue
+        out.fail("get-form-undocumented-accepted", f"get_form({sp!r}) returns a form although {sp!r} is no documented name of a form", {"name": sp},
+                 observed=getattr(got, "name", repr(got)), expected="UnknownFormError")
+    if only is None:
+        out.count(key="alt", kind="element-aliases")
+        alt = dict(forms.Form.alt)
+        wrong = [[al, alt.get(al), t] for al, t in DOC_ALT.items() if alt.get(al) != t]
+        # an alias the documentation does not know is harmless unless it hides an element name or points to no element
+        wrong += [[al, t, None] for al, t in alt.items() if al not in DOC_ALT and (al in DOC_ALL_PARAMS or t not in DOC_ALL_PARAMS)]
+        if wrong:
+            out.fail("element-aliases", "Form.alt: [alias, target in the library, documented target] differ", {"table": "Form.alt"}, observed=wrong, expected=[])
 
 
 def orbit_checks(out, fr, k, hyper, a, e, i, Om, om, M, EH):
@@ -529,6 +694,11 @@ def orbit_checks(out, fr, k, hyper, a, e, i, Om, om, M, EH):
                 fam = "mean-circular-hyperbolic-M-mod-2pi"
             out.fail(fam, f"{form}[{idx}] is not the textbook value of {kname} computed from the cartesian state",
                      dict(inp, cartesian=[float(x) for x in truth]), observed=g, expected=float(exp))
+    # 1b. the documented NAMES (full names, short names of the keplerian variants, any case): each name gives the elements of THAT form
+    class _NoWrap:
+        random = staticmethod(lambda: 0.7)
+    src_six = source_coords(mu, hyper, a, e, i, Om, om, M, EH, nu, _NoWrap)
+    by_name_checks(out, cart, fr, date, d, src_six, truth, hyper, a, e, i, rs, vs, inp, conic)
     # 2. round trips over all ordered pairs
     for src in FORMS:
         if not defined_for(src, hyper):
@@ -566,6 +736,8 @@ def orbit_checks(out, fr, k, hyper, a, e, i, Om, om, M, EH):
             out.fail("infos-" + nm + "-hyperbolic", f"infos.{nm} of a hyperbolic orbit does not raise", inp)
         elif got == "raises":
             out.fail(f"infos-{nm}-{conic}-raises", f"infos.{nm} raises ValueError where it is defined", inp)
+        elif got == "error":
+            out.fail(f"infos-{nm}-{conic}-error", f"infos.{nm} raises an exception other than ValueError", inp)
         elif not infos_ok(nm, got, exp, sc):
             out.fail(f"infos-{nm}-{conic}", f"infos.{nm} violates its defining relation", dict(inp, cartesian=[float(x) for x in truth]),
                      observed=float(got), expected=float(exp))
@@ -599,6 +771,8 @@ def oracle(ctx, widened):
                 note_hang()
     except HangBudget:
         out.tally(f"orbit sweep stopped early: {HANGS['n']} library calls did not return (each one recorded as a failing input)")
+    # 3b. the table of names itself
+    name_table_checks(out)
     # 4. Kepler equation through the public helper, all start branches, incl. the overflow region named by lead 18
     pinned = [(False, 0.826, 25.953, None), (False, 0.9, 100 * math.pi + 0.3, None), (False, 0.97, -31.0, None), (True, 1.2, 720.0, None)]
     cases = pinned + [None] * (2000 if big else 300)
@@ -658,6 +832,8 @@ def oracle(ctx, widened):
 def pinned_histories(hf):
     """hand-made histories that always run: read / modify in place / read again on every kind of write, and a change of centre
     (Earth -> Moon, both the constant-offset centre and the one of beyond.env.solarsystem) in every mu-dependent form"""
+    import numpy as np
+    from beyond.dates import Date
     by = {f["name"]: f["id"] for f in hf}
     out = []
     six = [7.2e6, 0.05, 0.9, 1.0, 2.0, 0.7]
@@ -667,9 +843,18 @@ def pinned_histories(hf):
                 [rd, {"op": "setn", "name": "a", "v": 4.2164e7, "how": "attr"}, {"op": "setn", "name": "e", "v": 0.3, "how": "item"}, rd2,
                  {"op": "form", "name": "cartesian", "how": "string"}, rd, {"op": "muls", "lo": 3, "hi": 6, "k": 1.1}, rd2,
                  {"op": "frame", "id": by["MOD"], "how": "name"}, rd, {"op": "seti", "i": 0, "v": 9.0e6}, rd]))
+    # every documented short name, in each place a caller can give it (setter, copy, constructor), other case, and a spelling that is no name
+    out.append(({"kind": "StateVector", "six": six, "form": "keplerian", "form_as": "KEPLERIAN", "frame": by["EME2000"], "date": [2020, 1, 1]},
+                [{"op": "form", "name": "circular", "how": "string"}, rd2, {"op": "setn", "name": "aol", "v": 1.25, "how": "attr"},
+                 {"op": "form", "name": "mean_circular", "how": "string"}, {"op": "setn", "name": "maol", "v": 2.5, "how": "item"}, rd,
+                 {"op": "form", "name": "eccentric", "how": "string"}, {"op": "form", "name": "Mean", "how": "string"},
+                 {"op": "copy", "name": "MEAN_CIRCULAR", "how": "kwargs"}, {"op": "form", "name": "mean_circ", "how": "string"},
+                 {"op": "copy", "name": "Circular", "id": by["MOD"], "how": "kwargs"}, {"op": "setn", "name": "alpha", "v": 0.5, "how": "attr"}, rd2]))
+    for short, full in DOC_SHORT_NAMES.items():
+        r0 = Ref(six, Date(2020, 1, 1), "keplerian", hf[by["EME2000"]])
+        out.append(({"kind": "Orbit" if len(short) % 2 else "StateVector", "six": r0._view(full), "form": full, "form_as": short, "frame": by["EME2000"], "date": [2020, 1, 1]},
+                    [rd, {"op": "form", "name": "cartesian", "how": "string"}, {"op": "copy", "name": short.upper(), "how": "kwargs"}, rd2]))
     # a lunar orbit seen from the Earth, taken back to a Moon-centred frame in each mu-dependent form
-    import numpy as np
-    from beyond.dates import Date
     for moon in ("C01h_Moon_EME2000", "Moon"):
         for n, form in enumerate(MU_FORMS):
             date = [2021, 3, 4, 12]
@@ -822,20 +1007,21 @@ class Ref:
                 for j, v in enumerate(op["vs"]):
                     six[op["lo"] + j] = v
             else:
-                name = forms.Form.alt.get(op["name"], op["name"])
-                pn = forms._cache[r.form].param_names
+                # names resolved by the DOCUMENTED tables, not by the library's own
+                name = DOC_ALT.get(op["name"], op["name"])
+                pn = DOC_PARAMS[r.form]
                 if name in pn:
                     six[pn.index(name)] = op["v"]
                 else:
-                    return r, ("A" if name in forms._cache_param_names else "D")
+                    return r, ("A" if name in DOC_ALL_PARAMS else "D")
             return Ref(six, r.date, r.form, r.fe), tag
         if k == "form":
-            t = forms._cache.get(op["name"].lower())
+            t = doc_form(op["name"])      # the form DOCUMENTED under that name (any case); no such form: UnknownFormError
             if t is None:
                 return r, "U"
-            if t.name != r.form:
-                r.form = t.name
-                r.six = r._view(t.name)
+            if t != r.form:
+                r.form = t
+                r.six = r._view(t)
             return r, tag
         if k == "frame":
             return r._to_frame(frames[op["id"]]), tag
@@ -900,7 +1086,7 @@ def real_apply(sv, op, frames):
                 else:
                     setattr(sv, op["name"], op["v"])
             elif k == "form":
-                sv.form = forms.get_form(op["name"]) if op.get("how") == "object" else op["name"]
+                sv.form = getattr(forms, FORM_CONST[doc_form(op["name"])]) if op.get("how") == "object" and doc_form(op["name"]) else op["name"]
             elif k == "frame":
                 sv.frame = frames[op["id"]]["name"] if op.get("how") == "name" else frames[op["id"]]["frame"]
             elif k == "copy":
@@ -911,7 +1097,7 @@ def real_apply(sv, op, frames):
                     kw["form"] = op["name"]
                 if op.get("how") == "same" and len(kw) == 2:
                     from beyond.orbits import StateVector
-                    tmpl = StateVector([1.0] * 6, sv.date, forms.get_form(op["name"]), kw["frame"])
+                    tmpl = StateVector([1.0] * 6, sv.date, getattr(forms, FORM_CONST[doc_form(op["name"])]), kw["frame"])
                     sv = sv.copy(same=tmpl)
                 else:
                     sv = sv.copy(**kw)
@@ -926,6 +1112,15 @@ def real_apply(sv, op, frames):
     return sv, "D", None
 
 
+def form_arg(init):
+    """the `form` argument of the constructor: the spelling recorded in the history (a documented name, any case), or the Form constant"""
+    from beyond.orbits import forms
+    fa = init.get("form_as")
+    if fa is None:
+        return init["form"]
+    return getattr(forms, FORM_CONST[init["form"]]) if fa == "object" else fa
+
+
 def make_object(init, frames):
     """the object a history starts from, built the way `init['kind']` says; returns (object, sibling or None)"""
     import pickle
@@ -937,9 +1132,9 @@ def make_object(init, frames):
     kind = init["kind"]
     sib = None
     if kind == "Orbit":
-        sv = Orbit(init["six"], date, init["form"], frame, None)
+        sv = Orbit(init["six"], date, form_arg(init), frame, None)
     else:
-        sv = StateVector(init["six"], date, init["form"], frame)
+        sv = StateVector(init["six"], date, form_arg(init), frame)
         if kind == "copy":
             sv = sv.copy()
         elif kind == "pickle":
@@ -1000,22 +1195,24 @@ ALIASES = None
 
 
 def _aliases():
+    """(aliases of each element name, names of each form) — from the documented tables"""
     global ALIASES
     if ALIASES is None:
-        from beyond.orbits import forms
         by = {}
-        for al, nm in forms.Form.alt.items():
+        for al, nm in DOC_ALT.items():
             by.setdefault(nm, []).append(al)
         names = {}
-        for al, f in forms._cache.items():
-            names.setdefault(f.name, []).append(al)
+        for al, f in DOC_FORM_NAMES.items():
+            names.setdefault(f, []).append(al)
         ALIASES = (by, names)
     return ALIASES
 
 
 def form_name_variant(rng, canonical):
-    """one of the accepted spellings of a form name (`forms._cache` aliases, any case)"""
+    """one of the documented spellings of a form name (full name, short name of a keplerian variant, any case)"""
     n = rng.choice(_aliases()[1][canonical])
+    if n == canonical and len(_aliases()[1][canonical]) > 1 and rng.random() < 0.5:
+        n = rng.choice([x for x in _aliases()[1][canonical] if x != canonical])      # the short names: at least as often as the full one
     r = rng.random()
     return n.upper() if r < 0.1 else n.capitalize() if r < 0.2 else n
 
@@ -1053,7 +1250,7 @@ def gen_start(rng, frames):
         form = rng.choice(sorted(src))
         kind = rng.choice(["StateVector", "StateVector", "Orbit", "copy", "pickle", "as_orbit", "copy-after-read", "pickle-after-read", "arith-after-read"])
         return {"kind": kind, "six": [float(v) for v in src[form]], "form": form, "frame": fe["id"], "date": list(date),
-                "frame_by_name": rng.random() < 0.3}
+                "frame_by_name": rng.random() < 0.3, "form_as": "object" if rng.random() < 0.2 else form_name_variant(rng, form)}
     raise RuntimeError("no start state found")
 
 
@@ -1062,12 +1259,15 @@ def propose_op(rng, ref, frames, reads_pending):
     from beyond.orbits import forms
     r = rng.random()
     hyper = state_quality(ref.mu, ref.x)["e"] > 1
-    pn = forms._cache[ref.form].param_names
+    pn = DOC_PARAMS[ref.form]
     if r < 0.22:
         return {"op": "infos", "how": rng.choice(["one-helper", "per-access"])}
     if r < 0.42:
+        if rng.random() < 0.06:
+            # no documented name of a form: UnknownFormError, object unchanged
+            return {"op": "form", "name": rng.choice(UNDOCUMENTED_NAMES), "how": "string"}
         t = rng.choice([f for f in FORMS if defined_for(f, hyper)])
-        return {"op": "form", "name": form_name_variant(rng, t), "how": rng.choice(["string", "object"])}
+        return {"op": "form", "name": form_name_variant(rng, t), "how": rng.choice(["string", "string", "object"])}
     if r < 0.57:
         # prefer a frame about another body
         cand = [f for f in frames if f["body"] is not ref.fe["body"]] if rng.random() < 0.6 else frames
@@ -1082,7 +1282,7 @@ def propose_op(rng, ref, frames, reads_pending):
         return op
     if r < 0.68:
         # a name of another form (or no element at all): AttributeError / KeyError, state unchanged
-        others = sorted(set(forms._cache_param_names) - set(pn)) + ["comment"]
+        others = sorted(DOC_ALL_PARAMS - set(pn)) + ["comment"]
         return {"op": "setn", "name": rng.choice(others), "v": rng.uniform(-1, 1), "how": rng.choice(["attr", "item"])}
     # in-place writes
     ang = set(ANGLE_IDX[ref.form])
@@ -1172,13 +1372,31 @@ def run_history(init, ops, frames, out=None, want_tokens=False):
     """drive a real object through `ops`; after every operation compare every observable with the reference semantics
     (`out`: oracle outcome to report into).  Returns the list of per-step records for the correspondence."""
     import numpy as np
-    sv, sib, date = make_object(init, frames)
+    try:
+        sv, sib, date = make_object(init, frames)
+    except Exception as ex:
+        # the constructor refuses a documented way of building the object (e.g. a documented name of the form)
+        if out is not None:
+            out.count(key=("hist-construct", repr(init)), kind="history-construct")
+            out.fail(f"history-construct-{init['form']}-raises", f"the object the history starts from cannot be built: {type(ex).__name__}",
+                     {"init": init, "ops": ops, "step": -1}, observed=repr(ex)[:120], expected="an object in form " + init["form"])
+            return []
+        return {"construct_raises": repr(ex)[:120]}
     ref = Ref(init["six"], date, init["form"], frames[init["frame"]])
     sib_six = None if sib is None else arr(sib).copy()
     steps = []
     changed_since_read = init["kind"].endswith("after-read")   # the helper of the sibling was read before the copy was taken
     hist_input = {"init": init, "ops": ops}
     n_fail0 = 0 if out is None else len(out.failures)
+    if out is not None:
+        # the object as constructed (form given by a documented name in some spelling, or as the Form constant): it is in the form
+        # of that name and stands for the state the six numbers describe in THAT form
+        q = state_quality(ref.mu, ref.x)
+        out.count(key=("hist-construct", repr(init)), kind="history-construct", form_given="as-" + ("object" if init.get("form_as") == "object" else
+                  "full-name" if init.get("form_as", init["form"]).lower() == init["form"] else "short-name"))
+        if history_checks(out, sv, arr(sv).copy(), "D", "D", None, ref, q, f"history-construct-{init['form']}",
+                          dict(hist_input, step=-1, body=ref.fe["body"].name, frame=ref.fe["name"], form=ref.form), {"op": "construct"}):
+            return []
     for n, op in enumerate(ops):
         before = ref
         toks = op_tokens(op, before, frames) if want_tokens else None
@@ -1284,7 +1502,7 @@ def history_checks(out, sv, six, rtag, tag, vals, ref, q, fam0, inp, op):
             if nm in by and by[nm] is not None and not isinstance(got, str):
                 got = by[nm]     # the value read as the operation itself
             if isinstance(got, str):
-                out.fail(f"{fam0}-{nm}-{got}", f"infos.{nm}: {'no ValueError although the orbit the object holds now is hyperbolic' if got == 'no-raise' else 'ValueError although it is defined for the orbit the object holds now'}", inp)
+                out.fail(f"{fam0}-{nm}-{got}", f"infos.{nm}: {'no ValueError although the orbit the object holds now is hyperbolic' if got == 'no-raise' else 'an exception other than ValueError' if got == 'error' else 'ValueError although it is defined for the orbit the object holds now'}", inp)
                 return True
             if not infos_ok(nm, got, exp, sc):
                 out.fail(f"{fam0}-{nm}", f"infos.{nm} does not obey its defining relation for the state the object holds now "
@@ -1551,6 +1769,8 @@ SHAPES = {
     ("forms", "Form.__call__"): ("if isinstance(new_form, Form):\n    new_form = new_form.name\ncoord = orbit.copy()\nif new_form != orbit.form.name:\n"
                                  "    for a, b in self.steps(new_form):\n        name = f'_{a.name.lower()}_to_{b.name.lower()}'\n"
                                  "        coord = getattr(self, name)(coord, orbit.frame.center.body)\nreturn coord\n"),
+    # `canonForm` of the machine: the table `_cache` (regenerated into Generated/FormTables.lean) looked up under the lower-cased name
+    ("forms", "get_form"): "if form.lower() not in _cache:\n    raise UnknownFormError(form)\nreturn _cache[form.lower()]\n",
     ("frames", "Frame.transform"): ("new_orb = orbit.copy(form='cartesian')\noffset = self.center.convert_to(orbit.date, new_frame.center, new_frame.orientation)\n"
                                     "m = self.orientation.convert_to(orbit.date, new_frame.orientation)\nnew_orb[:] = m @ new_orb + offset\n"
                                     "new_orb._frame = new_frame\nnew_orb.form = orbit.form\nreturn new_orb\n"),
@@ -1859,6 +2079,11 @@ def hist_correspondence(ctx, out, reqs, meta):
     todo = [gen_history(rng, hf, rng.randint(3, 12)) for _ in range(ctx.n(150, 3000))] + pinned_histories(hf)
     for init, ops in todo:
         steps = run_history(init, ops, hf, None, want_tokens=True)
+        if isinstance(steps, dict):
+            out.count(key=("hist-construct", repr(init)), kind="hist-construct")
+            out.fail("hist-construct-raises", "the real object cannot be built where the model has an initial state (form given as " + repr(init.get("form_as")) + ")",
+                     {"init": init, "ops": ops}, observed=steps["construct_raises"], expected="D")
+            continue
         fe = hf[init["frame"]]
         reqs.append(" ".join(["hist", init["form"], str(fe["id"]), f2b(fe["body"].mu)] + [f2b(v) for v in init["six"]] + [t for st in steps for t in st["toks"]]))
         meta.append(("hist", steps, None, None, None, 1.0, {"init": init, "ops": ops}))
@@ -2052,6 +2277,10 @@ def replay(f):
         out.count(key="replay")
         if not (math.isfinite(got) and abs(res) <= 1e-6 * max(1.0, abs(inp["M"]))):
             out.fail(fail["family"], fail["what"], inp, observed=got, expected=fail.get("expected"))
+        return out
+    if set(inp) == {"name"}:
+        name_table_checks(out, only=inp["name"])
+        out.failures = [x for x in out.failures if x["family"] == fail["family"]]
         return out
     if "init" in inp and "ops" in inp:
         run_history(inp["init"], inp["ops"], hist_frames(), out)
